@@ -9,7 +9,11 @@ request : `<cs01> <nophex> <line0> <obs|-> tok*`
   * `obs` = `<status>;<bytes hex|->;<line:num,…|->` – what the real `asl` did (exit status or `sig`, memory image from
     address 0 decoded by the Lean `pfile` reader, diagnostics of the `-E` file in order), or `-` for "predict only"
   * statements (names are hex encoded byte strings, `-` = empty):
-    `S:<name>` SECTION · `E:<name|->` ENDSECTION · `D:<name>:<val>:<mc01>` EQU/SET · `L:<name>` label + nop ·
+    `S:<name>` SECTION · `E:<name|->` ENDSECTION · `D:<name>:<val>:<mc01>[:<form>]` EQU/SET (form = the spelling of the
+    statement: `equ` `eq` (=) `lab` (LABEL) for constants, `set` `asg` (:=) `eval` for variables) ·
+    `L:<name>[:<form>]` label + one byte (`p` = `name nop`, `c` = `name: nop`, `m` = `name mymac`, a macro whose body is `nop`) ·
+    `T:<name>` label alone on its line · `W:<name>:<ref>` label in front of a data word · `A:<name>` `name LABEL <pc symbol>` ·
+    `N:<next01>:<name>[=<val>],…` ENUM / NEXTENUM ·
     `U:<ref>` data word · `F|P|G:<sym>=<sect>,…` FORWARD/PUBLIC/GLOBAL · `V|O:<stack>:<sym>,…` PUSHV/POPV
 answer  : `mout=<hex> merrs=<list> mpasses=<n> verdict=<accept|reject|unspec> swords=<n> shadow=<n> popconst=<0|1>`
           and with obs: `model=<eq|ne> spec=<ok|bad|na> why=<…>`
@@ -18,7 +22,9 @@ answer  : `mout=<hex> merrs=<list> mpasses=<n> verdict=<accept|reject|unspec> sw
             accept ⇒ exit 0, no error, bytes = the resolved values; reject ⇒ at least one error reported
   * why   – `bytes` (+ `onlyshadow=1` when every differing word is a reference the spec marks as preceding an inner
             definition; `popconst=1` when a POPV targeted a constant), `accepted-invalid`, `rejected-valid`
-            (+ `dollar=1` when all reported errors are double definitions of `$$` names)
+            (+ `dollar=1` when every reported error is the double definition of a `$$name` for which an earlier definition
+            of the same `$$name` exists in a *different* range (per the manual) whose most recently defined non-temporary
+            symbol has the *same name* – the input class of the finding `named-temp-reused-after-same-named-symbol`)
 -/
 namespace Driver.C13
 open AslModel
@@ -41,7 +47,23 @@ def parseOp (t : String) : Option Sym.Op :=
   | ["S", n] => (unhexName n).map Sym.Op.section_
   | ["E", n] => if n = "-" then some (.endsection none) else (unhexName n).map (fun x => .endsection (some x))
   | ["D", n, v, mc] => do let n ← unhexName n; let v ← v.toInt?; pure (.define n v (mc = "1"))
+  | ["D", n, v, mc, form] => do
+    let n ← unhexName n
+    let v ← v.toInt?
+    -- the form must agree with the kind: EQU, `=`, LABEL define constants; SET, `:=`, EVAL variables
+    if (mc = "0" ∧ form ∈ ["equ", "eq", "lab"]) ∨ (mc = "1" ∧ form ∈ ["set", "asg", "eval"]) then pure (.define n v (mc = "1")) else none
   | ["L", n] => (unhexName n).map Sym.Op.label
+  | ["L", n, form] => if form ∈ ["p", "c", "m"] then (unhexName n).map Sym.Op.label else none
+  | ["T", n] => (unhexName n).map Sym.Op.labelOnly
+  | ["W", n, r] => do let n ← unhexName n; let r ← unhexName r; pure (.labelWord n r)
+  | ["A", n] => (unhexName n).map Sym.Op.labelPc
+  | ["N", nx, a] => do
+    let items ← (a.splitOn ",").mapM fun it =>
+      match it.splitOn "=" with
+      | [x] => do let x ← unhexName x; pure (x, (none : Option Int))
+      | [x, v] => do let x ← unhexName x; let v ← v.toInt?; pure (x, some v)
+      | _ => none
+    if nx = "0" ∨ nx = "1" then pure (.enum_ (nx = "1") items) else none
   | ["U", n] => (unhexName n).map Sym.Op.use
   | ["F", a] => (parseArgs a).map (Sym.Op.pp .forward)
   | ["P", a] => (parseArgs a).map (Sym.Op.pp .public_)
@@ -79,32 +101,93 @@ inductive FOp where
 
 def undefinedName : Name := [63, 63]
 
-/-- flat spec statements after the temporary-symbol renaming; label values are addresses (use = 2 bytes, label = 1) -/
-def toFlat (cs : Bool) : List Sym.Op → Scope.TmpSt → Nat → List FOp
-  | [], _, _ => []
-  | op :: r, t, pc =>
+/-- which defining statement a `D` token is (the form only selects the spelling; LABEL counts as its own kind) -/
+def defBy (mc : Bool) : Scope.DefBy := if mc then .set else .equ
+
+/-- the members of one ENUM line as spec definitions (every member is a definition of its own) -/
+def enumFlat (cs : Bool) : List (Name × Int) → Scope.TmpSt → List FOp × Scope.TmpSt
+  | [], t => ([], t)
+  | (n, v) :: r, t =>
+    let (b, q) := parseRef cs n
+    let (t', ns) := Scope.defNames t b .enumMember
+    let (fl, t'') := enumFlat cs r t'
+    (ns.map (fun x => FOp.item (.defn (norm cs x) q v false)) ++ fl, t'')
+
+/-- flat spec statements after the temporary-symbol renaming; label values are addresses (use = 2 bytes, label = 1);
+`en` is the ENUM counter of the manual -/
+def toFlat (cs : Bool) : List Sym.Op → Scope.TmpSt → Nat → Int → List FOp
+  | [], _, _, _ => []
+  | op :: r, t, pc, en =>
     match op with
-    | .section_ n => .sec (norm cs n) :: toFlat cs r t pc
-    | .endsection a => .endsec (a.map (norm cs)) :: toFlat cs r t pc
+    | .section_ n => .sec (norm cs n) :: toFlat cs r t pc en
+    | .endsection a => .endsec (a.map (norm cs)) :: toFlat cs r t pc en
     | .define n v mc =>
       let (b, q) := parseRef cs n
-      let (t', ns) := Scope.defNames t b
-      ns.map (fun x => FOp.item (.defn (norm cs x) q v mc)) ++ toFlat cs r t' pc
+      let (t', ns) := Scope.defNames t b (defBy mc)
+      ns.map (fun x => FOp.item (.defn (norm cs x) q v mc)) ++ toFlat cs r t' pc en
     | .label n =>
       let (b, q) := parseRef cs n
-      let (t', ns) := Scope.defNames t b
-      ns.map (fun x => FOp.item (.defn (norm cs x) q (pc : Int) false)) ++ toFlat cs r t' (pc + 1)
+      let (t', ns) := Scope.defNames t b .label
+      ns.map (fun x => FOp.item (.defn (norm cs x) q (pc : Int) false)) ++ toFlat cs r t' (pc + 1) en
+    | .labelOnly n =>
+      let (b, q) := parseRef cs n
+      let (t', ns) := Scope.defNames t b .label
+      ns.map (fun x => FOp.item (.defn (norm cs x) q (pc : Int) false)) ++ toFlat cs r t' pc en
+    | .labelWord n ref =>
+      -- the label of a line is defined by that line: it is the most recently defined symbol for the operand
+      let (b, q) := parseRef cs n
+      let (t', ns) := Scope.defNames t b .label
+      let (rb, rq) := parseRef cs ref
+      let nm := match Scope.refName t' rb with | .plain x => norm cs x | .outOfSight => undefinedName
+      ns.map (fun x => FOp.item (.defn (norm cs x) q (pc : Int) false)) ++ (.item (.use nm rq) :: toFlat cs r t' (pc + 2) en)
+    | .labelPc n =>
+      let (b, q) := parseRef cs n
+      let (t', ns) := Scope.defNames t b .labelStmt
+      ns.map (fun x => FOp.item (.defn (norm cs x) q (pc : Int) false)) ++ toFlat cs r t' pc en
+    | .enum_ next items =>
+      let (vals, en') := Scope.enumVals (if next then en else 0) items
+      let (fl, t') := enumFlat cs vals t
+      fl ++ toFlat cs r t' pc en'
     | .use n =>
       let (b, q) := parseRef cs n
       let nm := match Scope.refName t b with | .plain x => norm cs x | .outOfSight => undefinedName
-      .item (.use nm q) :: toFlat cs r t (pc + 2)
+      .item (.use nm q) :: toFlat cs r t (pc + 2) en
     | .pp k args =>
       let kk : Scope.DeclKind := match k with | .forward => .forward | .public_ => .public_ | .global_ => .global_
-      args.map (fun a => FOp.item (.decl kk (norm cs a.1) (if a.2 = [] then .global else parseQualPart cs a.2))) ++ toFlat cs r t pc
+      args.map (fun a => FOp.item (.decl kk (norm cs a.1) (if a.2 = [] then .global else parseQualPart cs a.2))) ++ toFlat cs r t pc en
     | .pushv k syms =>
-      syms.map (fun s => let (b, q) := parseRef cs s; FOp.item (.pushv (norm cs k) (norm cs b) q)) ++ toFlat cs r t pc
+      syms.map (fun s => let (b, q) := parseRef cs s; FOp.item (.pushv (norm cs k) (norm cs b) q)) ++ toFlat cs r t pc en
     | .popv k syms =>
-      syms.map (fun s => let (b, q) := parseRef cs s; FOp.item (.popv (norm cs k) (norm cs b) q)) ++ toFlat cs r t pc
+      syms.map (fun s => let (b, q) := parseRef cs s; FOp.item (.popv (norm cs k) (norm cs b) q)) ++ toFlat cs r t pc en
+
+/-- per statement: for a definition of a `$$name` the triple (name after case folding, range number, name of the most
+recently defined non-temporary symbol as written) by the manual's bookkeeping, `none` for every other statement -/
+def dollarTrace (cs : Bool) : List Sym.Op → Scope.TmpSt → List (Option (Name × Nat × Name))
+  | [], _ => []
+  | op :: r, t =>
+    let one (n : Name) (src : Scope.DefBy) : Option (Name × Nat × Name) × Scope.TmpSt :=
+      let (b, _) := parseRef cs n
+      let t' := (Scope.defNames t b src).1
+      (match b with | 36 :: 36 :: x => some (norm cs x, t.area, t.last) | _ => none, t')
+    match op with
+    | .define n _ mc => let (d, t') := one n (defBy mc); d :: dollarTrace cs r t'
+    | .label n => let (d, t') := one n .label; d :: dollarTrace cs r t'
+    | .labelOnly n => let (d, t') := one n .label; d :: dollarTrace cs r t'
+    | .labelWord n _ => let (d, t') := one n .label; d :: dollarTrace cs r t'
+    | .labelPc n => let (d, t') := one n .labelStmt; d :: dollarTrace cs r t'
+    | .enum_ _ items =>
+      let t' := items.foldl (fun tt it => (Scope.defNames tt (parseRef cs it.1).1 .enumMember).1) t
+      none :: dollarTrace cs r t'
+    | _ => none :: dollarTrace cs r t
+
+/-- statement `i` re-uses a `$$name` in a new range whose opening symbol has the same name as that of an earlier range
+in which the same `$$name` was defined -/
+def dollarSameName (tr : List (Option (Name × Nat × Name))) (i : Nat) : Bool :=
+  match tr.getD i none with
+  | none => false
+  | some (n, a, l) => (tr.take i).any fun
+    | some (n', a', l') => n' = n && a' != a && l' = l
+    | none => false
 
 instance : Inhabited Scope.Items := ⟨.nil⟩
 
@@ -146,6 +229,8 @@ def layout (nop : Nat) : List Sym.Op → List Int → List Nat
   | .label _ :: r, ws => nop :: layout nop r ws
   | .use _ :: r, w :: ws => let v := (w % 65536).toNat; (v % 256) :: (v / 256) :: layout nop r ws
   | .use _ :: r, [] => 0 :: 0 :: layout nop r []
+  | .labelWord _ _ :: r, w :: ws => let v := (w % 65536).toNat; (v % 256) :: (v / 256) :: layout nop r ws
+  | .labelWord _ _ :: r, [] => 0 :: 0 :: layout nop r []
   | _ :: r, ws => layout nop r ws
 
 /-- byte offsets of the use-words, in order -/
@@ -153,12 +238,8 @@ def wordOffsets : List Sym.Op → Nat → List Nat
   | [], _ => []
   | .label _ :: r, pc => wordOffsets r (pc + 1)
   | .use _ :: r, pc => pc :: wordOffsets r (pc + 2)
+  | .labelWord _ _ :: r, pc => pc :: wordOffsets r (pc + 2)
   | _ :: r, pc => wordOffsets r pc
-
-def isDollarDef : Sym.Op → Bool
-  | .define (36 :: 36 :: _) _ _ => true
-  | .label (36 :: 36 :: _) => true
-  | _ => false
 
 def handle (line : String) : String :=
   match words line with
@@ -171,7 +252,7 @@ def handle (line : String) : String :=
       let mout := fin.out.reverse
       let merrs := fin.errs.reverse
       let mstat := if Sym.hasError fin then "2" else if fin.repass then "97" else "0"
-      let verdict := match toTree (toFlat cs ops {} 0) with
+      let verdict := match toTree (toFlat cs ops {} 0 0) with
         | some t => Scope.judge t
         | none => .reject "SECTION/ENDSECTION do not nest"
       let (vs, swords, shadow, popc, sopen) := match verdict with
@@ -202,7 +283,8 @@ def handle (line : String) : String :=
                 -- when the statement is refused ("constants cannot be redefined as variables") as well as when it were ignored
                 ("ok", "-")
               else if rerr || stat != "0" then
-                let dollar := re.all (fun e => e.2 < 1000 || (e.2 = 1000 && ((ops.getD (e.1 - l0 - 1) (.use [])) |> isDollarDef)))
+                let tr := dollarTrace cs ops {}
+                let dollar := re.all (fun e => e.2 < 1000 || (e.2 = 1000 && e.1 > l0 && dollarSameName tr (e.1 - l0 - 1)))
                 ("bad", s!"rejected-valid dollar={if dollar then 1 else 0}")
               else
                 let exp := layout nopB ops ws
